@@ -3,15 +3,17 @@ import NfcVerif.Lemmas.TermMulti
 /-!
 # C09 - when the LLCP link ends no application thread is left waiting
 
-Statements about the executable model `NfcVerif.Model.Term` (wait structures of
-the socket calls of tco.py / llc.py as repaired by fixes/C09, `terminate()`, the
-run loops, the SNEP / handover service loops).  The model is tied to the real
-code by harness/props/c09.py (every scheduling point, result and final socket
-state compared under a Condition double, action tree enumerated).
+Statements about the executable models `NfcVerif.Model.Term` (wait structures of the socket
+calls of tco.py / llc.py as repaired by fixes/C09, `terminate()`, the run loops, the SNEP /
+handover service loops - one thread) and `NfcVerif.Model.TermMulti` (any number of threads on one
+socket / controller, condition variables with FIFO waiter lists, `notify()` vs `notify_all()`,
+schedules).  The models are tied to the real code by harness/props/c09.py (every scheduling
+point, result and final socket state compared under a Condition double, action tree enumerated)
+and harness/props/c09_multi.py (2..4 real threads under a deterministic scheduler, every
+execution compared with `TermMulti.runM`; the service loops walked along `serviceStep`).
 
-Assumed, not proved (Python runtime): `notify_all` wakes every waiter, a woken
-thread eventually gets the lock, the link thread preempts an application thread
-only where that thread holds no lock.
+Assumed, not proved (Python runtime): `notify()` wakes waiters in arrival order, a woken thread
+eventually gets the lock, a thread is preempted only at outermost lock acquisitions and waits.
 -/
 namespace NfcVerif.C09
 open NfcVerif NfcVerif.Term NfcVerif.TermMulti
